@@ -119,6 +119,27 @@ func newL2Ep(r *Rec, nu int, names []string, dapDenoms []string, minB, maxB, dur
 	if err := gk.SetNetworkProperties(ctx, np); err != nil {
 		panic(err)
 	}
+	// who is exempt from the bond rules of CreateDappProposal: decided by the permission rule (an individual or role
+	// blacklist beats every whitelist). In some episodes the sudo account 0 has the permission the gate consults
+	// blacklisted individually (it still holds it through its role), in some account 1 holds it individually.
+	switch r.Rng.Intn(4) {
+	case 0:
+		if a, ok := gk.GetNetworkActorByAddress(ctx, w.addrs[0]); ok {
+			if err := gk.AddBlacklistPermission(ctx, a, govtypes.PermHandleBasketEmergency); err == nil {
+				r.Count("episode:sudo-individually-blacklisted")
+			}
+		}
+	case 1:
+		if nu > 1 {
+			a, ok := gk.GetNetworkActorByAddress(ctx, w.addrs[1])
+			if !ok {
+				a = govtypes.NewDefaultActor(w.addrs[1])
+			}
+			if err := gk.AddWhitelistPermission(ctx, a, govtypes.PermHandleBasketEmergency); err == nil {
+				r.Count("episode:user-individually-whitelisted")
+			}
+		}
+	}
 	if poor >= 0 && poor < nu {
 		// one user with little money: bank failures are part of the behaviour under test
 		bal := w.app.BankKeeper.GetBalance(ctx, w.addrs[poor], "ukex")
@@ -407,7 +428,12 @@ func coin(den string, amt int64) sdk.Coin { return sdk.Coin{Denom: den, Amount: 
 
 func (ep *l2Ep) create(u int, d l2types.Dapp, den string, amt int64) string {
 	ctx := ep.cctx()
-	perm := ep.k.CheckIfAllowedPermission(ctx, ep.w.addrs[u], govtypes.PermCreateDappProposalWithoutBond)
+	// the gate as coded consults PermHandleBasketEmergency whatever permission its caller names; WHO holds it is decided
+	// here by the permission rule itself, not by asking the gate
+	perm := permRuleHolds(ctx, ep.w.app.CustomGovKeeper, ep.w.addrs[u], uint32(govtypes.PermHandleBasketEmergency))
+	if got := ep.k.CheckIfAllowedPermission(ctx, ep.w.addrs[u], govtypes.PermCreateDappProposalWithoutBond); got != perm {
+		ep.r.Fail("C20/create/exemption-against-the-permission-rule", fmt.Sprintf("account %d: the layer2 gate says exempt=%v, by the permission rule (blacklists beat whitelists) it is %v", u, got, perm), ep.replay())
+	}
 	before := ep.balOf(u, den)
 	msg := &l2types.MsgCreateDappProposal{Sender: ep.w.addrs[u].String(), Dapp: d, Bond: coin(den, amt)}
 	err := withCache(ctx, func(c sdk.Context) error { _, e := ep.ms.CreateDappProposal(sdk.WrapSDKContext(c), msg); return e })
